@@ -88,6 +88,9 @@ def run(ctx):
             if lang == 'en':
                 work = [[ScoredTree(T.clone(st.tree), st.score) for st in sent] for sent in batch]
                 try:
+                    if it % 5 in (1, 3):
+                        # the same result objects were printed as Jigg XML before (a user asking for both)
+                        to_jigg_xml(work, use_symbol=False)
                     root = xml_of(work)
                     text = etree.tostring(root, encoding='utf-8', pretty_print=True).decode('utf-8')
                 except Exception as e:
